@@ -132,7 +132,8 @@ def rule_Q1(ctx, R):
             else:
                 res.ok("%s::%s" % (adt, name))
     from interp import RAW_TRAITS
-    for f, t in call_sites(ctx, lambda c: c.get("trait") in RAW_TRAITS):
+    # queries such as is_locked() neither acquire nor release: only the operations of RAW_SEM are restricted
+    for f, t in call_sites(ctx, lambda c: c.get("trait") in RAW_TRAITS and (c["name"] in RAW_SEM or c["name"].startswith(("lock", "try_lock", "unlock", "downgrade", "upgrade", "bump"))) ):
         top = ctx.F.top_fn(f)
         if top["id"] not in allowed_tops:
             res.bad(Violation("Q1", top["path"], "raw-call:" + t["callee"]["name"], "lock_api operation `%s` called outside "
@@ -1046,4 +1047,41 @@ def rule_N5(ctx, R):
                               "afterwards be given the same lock twice (`*c.child_mut() = (&a, &a)`), and locking it makes a single "
                               "thread wait on itself forever" % (f["path"], out["s"]), f["span"]["file"], f["span"]["line"]))
     res.need(4, "mutable accessors of borrow-capable collections")
+    return res
+
+
+def rule_M5(ctx, R):
+    res = RuleResult("M5", "an acquiring HL op of a leaf lock never unwinds after its raw acquisition has returned: callers treat a "
+                           "panicking raw_write/raw_read/raw_try_* as `not acquired`, so a panic raised while already holding the raw "
+                           "lock leaks it")
+    leaves = leaf_locks(ctx)
+    for adt, name, f in rawlock_impl_fns(ctx, leaves):
+        if name not in ("raw_write", "raw_try_write", "raw_read", "raw_try_read"):
+            continue
+        paths, err, I = ctx.paths(f)
+        if err:
+            res.undecided(f["path"], "analysis", err, *_floc(f))
+            continue
+        bad = None
+        for p in paths:
+            if p.kind != "unwind":
+                continue
+            acq = [e for e in p.events if (e["k"] == "RAW" and RAW_SEM.get(e["op"], ("", ""))[0] in ("ACQ", "TRY"))
+                   or e["k"] in ("ACQ", "TRY")]
+            for a in acq:
+                nxt = p.events[a["i"] + 1] if a["i"] + 1 < len(p.events) else None
+                faulted_itself = nxt is not None and nxt["k"] == "UNWIND_AT"
+                if faulted_itself:
+                    continue
+                # the acquisition returned normally; is it released again before the function unwinds?
+                rel = [e for e in p.events[a["i"] + 1:] if (e["k"] == "RAW" and RAW_SEM.get(e["op"], ("", ""))[0] == "REL") or e["k"] == "REL"]
+                if not rel:
+                    what = next((e for e in p.events[a["i"] + 1:] if e["k"] in ("PANIC", "UNWIND_AT", "ASSERT_FAIL")), {})
+                    bad = "%s::%s unwinds (%s) after `%s` has already returned: the raw lock stays locked and no guard exists" % (
+                        adt, name, what.get("what") or what.get("k"), a.get("op") or a["k"])
+        if bad:
+            res.bad(Violation("M5", f["path"], name, bad + " (path: %s)" % p.trace()[:300], *_floc(f)))
+        else:
+            res.ok("%s::%s" % (adt, name))
+    res.need(8, "acquiring HL ops of leaf locks")
     return res
